@@ -653,7 +653,8 @@ package logqlengine
 //@   ensures[reads-the-unwrap-label] gs_called && gs_a0 == l.label
 //@   ensures[missing-label-no-sample] !gs_r1 ==> !ret1
 //@   ensures[value-is-converted-label] gs_r1 ==> cv_called && cv_a0 == gs_r0 && same(p, cv_r0)
-//@   ensures[kept-iff-postfilter-keeps] gs_r1 ==> pf_called && ret1 == pf_r1 && pf_a0 == e.ts && pf_a1 == e.line && same(pf_a2, e.set)
+//@   ensures[kept-iff-postfilter-keeps] gs_r1 ==> pf_called && (cv_r1 == nil ==> ret1 == pf_r1) && pf_a0 == e.ts && pf_a1 == e.line && same(pf_a2, e.set)
+//@   ensures[a-value-that-does-not-convert-is-not-a-sample] gs_r1 && cv_r1 != nil ==> !ret1
 
 //@ func buildSampleExtractor
 //@   logical s string
